@@ -206,19 +206,20 @@ theorem louvain_fit_total {argsort : List Int → List Nat} (hs : ∀ key, IsArg
       ValidClustering N (allLabels f) sortClusters ∧ f = splitVars bipartite nRow (allLabels f) :=
   louvainFit_total hs hk hst nAgg hN hf sortClusters shuffle bipartite nRow hidx
 
-/-- ★★ total form for Leiden, under `LeidenContract` and the progress clause `LeidenProgress` (a round that does not
-    raise the stop flag leaves strictly fewer refined clusters than nodes).  `LeidenProgress` is *not* proved of the
-    kernels by C06/C17 (C17 proves termination of the refinement and of Louvain's outer loop only): it is an
-    assumption of this theorem, evaluated on every recorded round by the contract line `contract_progress`. -/
+/-- ★★ total form for Leiden, under `LeidenContract` alone: since the repair b2c73765 (`stop |= n == n_previous`) a
+    round whose refinement merges nothing ends the loop, so every continuing round has strictly fewer nodes and
+    `Leiden.fit` returns within as many rounds as nodes — for every `n_aggregations`, every tolerance, whatever the
+    stop flags are (before the repair this needed an unproved progress assumption, and `tol_aggregation = 0` could
+    loop for ever: corpus of C17) -/
 theorem leiden_fit_total {argsort : List Int → List Nat} (hs : ∀ key, IsArgsort key (argsort key))
     {kernel : Nat → List Nat → List Int × Bool} {refine : Nat → List Nat → List Int}
-    (hk : LeidenContract kernel refine) (hp : LeidenProgress kernel refine) (nAgg : Int) {fuel N : Nat}
+    (hk : LeidenContract kernel refine) (nAgg : Int) {fuel N : Nat}
     (hN : 0 < N) (hf : N ≤ fuel) (sortClusters shuffle bipartite : Bool) (nRow : Nat) {index : List Nat}
     (hidx : shuffle = true → index.Perm (List.range N)) :
     ∃ f count, leidenFit argsort kernel refine nAgg fuel N index sortClusters shuffle bipartite nRow
         = .ok (some (f, count)) ∧
       ValidClustering N (allLabels f) sortClusters ∧ f = splitVars bipartite nRow (allLabels f) :=
-  leidenFit_total hs hk hp nAgg hN hf sortClusters shuffle bipartite nRow hidx
+  leidenFit_total hs hk nAgg hN hf sortClusters shuffle bipartite nRow hidx
 
 -- the contracts are satisfiable (the example kernels of this file meet them) and not vacuous: an idle kernel that
 -- never merges and never raises the flag violates `NoMergeStops`, and the model then runs out of any fuel
